@@ -34,7 +34,7 @@ NAMES = ["a", "b.txt", "with space", "√ºn√Ø-c√∂d√©", "-dash", "new\nline", "Êó•Ê
 
 def shards(tier, seed):
     n = 12 if tier == "quick" else 24
-    return [{"cases": 60 if tier == "quick" else 1200} for _ in range(n)]
+    return [{"cases": 60 if tier == "quick" else 2500} for _ in range(n)]
 
 
 # ---------------------------------------------------------------------------
